@@ -50,6 +50,8 @@ type Profile struct {
 	Nested float64
 	// EventDriven: run the convergence phase in E mode (events, requeues and error retries only)
 	EventDriven bool
+	// EnvOrder: probability that an edited template carries a two-variable env list in one of its two orders
+	EnvOrder float64
 	// Overrides: weight of node override annotation / ExtendedDaemonsetSetting actions (0 = none exist)
 	Overrides float64
 	// CanarySteady: before the end, hold a running manual canary open and judge its steady state (C04)
@@ -433,6 +435,14 @@ func (e *Sim) actionFrom(w *World, r *rand.Rand, ns, name string, sh shape, edit
 			if r.Intn(6) == 0 { // eligibility-changing variant (distinct marker)
 				t = sh.tpl(mk + "-sel")
 				t.Spec.NodeSelector = map[string]string{"zone": "a"}
+			}
+			if p.EnvOrder > 0 && r.Float64() < p.EnvOrder {
+				// variants that differ only in the order of the env list (distinct templates)
+				env := []corev1.EnvVar{{Name: "LOG", Value: "info"}, {Name: "ARGS", Value: "$(LOG)"}}
+				if r.Intn(2) == 0 {
+					env[0], env[1] = env[1], env[0]
+				}
+				t.Spec.Containers[0].Env = env
 			}
 			w.SetTemplate(ns, name, t)
 			edits[k]++
